@@ -36,6 +36,8 @@ SEM = Family(
                  replay_kw=skw(True, 1, 1)),
         ModelCfg("s-n2o3e2-i1m2", sconsts(2, 3, 2, False, 1, 2), emit=True, check=False,
                  replay_kw=skw(False, 1, 2), max_scenarios=4000),
+        ModelCfg("s-n3o2e1-ar", sconsts(3, 2, 1, False, 0, 0, ops='{"acq", "rel"}'), emit=True, check=False,
+                 replay_kw=skw(False, 0, 0)),
         ModelCfg("s-n3o2e2-i1", sconsts(3, 2, 2, False, 1, 0), tiers=("quick",), simulate=1000,
                  replay_kw=skw(False, 1, 0)),
         ModelCfg("s-n3o3e2-i2", sconsts(3, 3, 2, False, 2, 0), tiers=("thorough",), simulate=6000,
